@@ -38,6 +38,29 @@ thread_local! {
     static POLLS: RefCell<Vec<u64>> = const { RefCell::new(Vec::new()) };
 }
 
+thread_local! {
+    /// current incarnation of every node (slot 0 unused): bumped by the software factory
+    static INCS: RefCell<Vec<u64>> = const { RefCell::new(Vec::new()) };
+}
+
+/// Is `inc` still the incarnation of node h that the simulation is supposed to run?  Code of an
+/// incarnation that was replaced by Sim::bounce must never run again; if it does, that is recorded.
+fn live(h: usize, inc: u64) -> bool {
+    let cur = INCS.with(|i| i.borrow().get(h).copied().unwrap_or(0));
+    if cur != inc {
+        rec::emit(json!({"ev":"stale","h":h,"inc":inc,"cur":cur}));
+    }
+    cur == inc
+}
+
+/// The epoch the Builder gets has a sub-millisecond part; clock readings that include the epoch
+/// are recorded as whole milliseconds *after removing exactly that configured part* (-1 if what
+/// remains is not a whole number of milliseconds).
+const EPOCH_FRAC: Duration = Duration::from_nanos(123_456);
+fn whole_ms_epoch(d: Duration) -> i64 {
+    d.checked_sub(EPOCH_FRAC).map(whole_ms).unwrap_or(-1)
+}
+
 fn polls() -> Vec<u64> {
     POLLS.with(|p| p.borrow().iter().skip(1).copied().collect())
 }
@@ -88,7 +111,7 @@ async fn wait_ms(k: u64, prim: u64) {
     }
 }
 
-async fn run_pat(h: usize, task: &'static str, pat: Vec<u64>) {
+async fn run_pat(h: usize, inc: u64, task: &'static str, pat: Vec<u64>) {
     for (i, k) in pat.into_iter().enumerate() {
         let st = whole_ms(turmoil::elapsed());
         let i0 = tokio::time::Instant::now();
@@ -97,23 +120,29 @@ async fn run_pat(h: usize, task: &'static str, pat: Vec<u64>) {
         let sim = turmoil::sim_elapsed().expect("sim_elapsed");
         let ep = turmoil::since_epoch().expect("since_epoch");
         let di = tokio::time::Instant::now() - i0;
+        if !live(h, inc) {
+            continue;
+        }
         rec::emit(json!({"ev":"sample","h":h,"task":task,"k":k,"st":st,"el":whole_ms(el),
-            "sim":whole_ms(sim),"ep":whole_ms(ep),"di":whole_ms(di)}));
+            "sim":whole_ms(sim),"ep":whole_ms_epoch(ep),"di":whole_ms(di)}));
     }
 }
 
-async fn heartbeat(h: usize) {
+async fn heartbeat(h: usize, inc: u64) {
     loop {
-        POLLS.with(|p| p.borrow_mut()[h] += 1);
-        rec::emit(json!({"ev":"hb","h":h}));
+        if live(h, inc) {
+            POLLS.with(|p| p.borrow_mut()[h] += 1);
+            rec::emit(json!({"ev":"hb","h":h}));
+        }
         tokio::time::sleep(ms(1)).await;
     }
 }
 
-async fn spawned(h: usize, tpat: Vec<u64>, tout: String) -> Result<(), String> {
-    run_pat(h, "t", tpat).await;
+async fn spawned(h: usize, inc: u64, tpat: Vec<u64>, tout: String) -> Result<(), String> {
+    run_pat(h, inc, "t", tpat).await;
     match tout.as_str() {
         "Panic" => {
+            live(h, inc);
             rec::emit(json!({"ev":"panic","h":h,"task":"t"}));
             panic!("scripted panic in a spawned task");
         }
@@ -124,17 +153,18 @@ async fn spawned(h: usize, tpat: Vec<u64>, tout: String) -> Result<(), String> {
     Ok(())
 }
 
-async fn software(h: usize, sc: Script) -> turmoil::Result {
-    tokio::task::spawn_local(heartbeat(h));
+async fn software(h: usize, inc: u64, sc: Script) -> turmoil::Result {
+    tokio::task::spawn_local(heartbeat(h, inc));
     if sc.tout != "none" {
         // alternate between the LocalSet and the runtime's own task queue
         if h % 2 == 0 {
-            tokio::spawn(spawned(h, sc.tpat.clone(), sc.tout.clone()));
+            tokio::spawn(spawned(h, inc, sc.tpat.clone(), sc.tout.clone()));
         } else {
-            tokio::task::spawn_local(spawned(h, sc.tpat.clone(), sc.tout.clone()));
+            tokio::task::spawn_local(spawned(h, inc, sc.tpat.clone(), sc.tout.clone()));
         }
     }
-    run_pat(h, "m", sc.pat.clone()).await;
+    run_pat(h, inc, "m", sc.pat.clone()).await;
+    live(h, inc);
     let at = whole_ms(turmoil::sim_elapsed().expect("sim_elapsed"));
     match sc.out.as_str() {
         "Ok" => {
@@ -179,12 +209,13 @@ impl<'a> Run<'a> {
         let mut b = turmoil::Builder::new();
         b.tick_duration(ms(cfg.tick))
             .simulation_duration(ms(cfg.duration))
-            .epoch(UNIX_EPOCH + ms(cfg.epoch))
+            .epoch(UNIX_EPOCH + ms(cfg.epoch) + EPOCH_FRAC)
             .rng_seed(cfg.seed);
         if cfg.random_order {
             b.enable_random_order();
         }
         POLLS.with(|p| *p.borrow_mut() = vec![0]);
+        INCS.with(|p| *p.borrow_mut() = vec![0]);
         rec::take();
         rec::emit(json!({"ev":"reset","tick":cfg.tick,"duration":cfg.duration,"epoch":cfg.epoch,
             "random":cfg.random_order}));
@@ -192,19 +223,26 @@ impl<'a> Run<'a> {
     }
 
     fn look(&self) -> (i64, i64) {
-        (whole_ms(self.sim.elapsed()), whole_ms(self.sim.since_epoch()))
+        (whole_ms(self.sim.elapsed()), whole_ms_epoch(self.sim.since_epoch()))
     }
 
     fn register(&mut self, sc: &Script) {
         self.n += 1;
         let n = self.n;
         POLLS.with(|p| p.borrow_mut().push(0));
+        INCS.with(|p| p.borrow_mut().push(0));
         let (e, _) = self.look();
+        let next_inc = move || {
+            INCS.with(|p| {
+                p.borrow_mut()[n] += 1;
+                p.borrow()[n]
+            })
+        };
         if sc.kind == "client" {
-            self.sim.client(nname(n), software(n, sc.clone()));
+            self.sim.client(nname(n), software(n, next_inc(), sc.clone()));
         } else {
             let sc2 = sc.clone();
-            self.sim.host(nname(n), move || software(n, sc2.clone()));
+            self.sim.host(nname(n), move || software(n, next_inc(), sc2.clone()));
         }
         rec::emit(json!({"ev":"reg","n":n,"kind":sc.kind,"e":e,"pat":sc.pat,"out":sc.out,
             "tpat":sc.tpat,"tout":sc.tout}));
@@ -737,19 +775,27 @@ mod c04 {
 
     type Cell<T> = Rc<RefCell<Option<T>>>;
 
+    /// Streams are split; the two halves live in separate cells.  Fields are dropped in
+    /// declaration order, so the write halves in `wr_first` are closed before the read half of the
+    /// same stream and those in `wr` after it: both destructor orders occur when a host is torn down.
     #[derive(Default)]
     struct Slots {
         listener: Option<Rc<TcpListener>>,
         udp: Option<Rc<UdpSocket>>,
+        wr_first: BTreeMap<u64, Cell<OwnedWriteHalf>>,
         rd: BTreeMap<u64, Cell<OwnedReadHalf>>,
         wr: BTreeMap<u64, Cell<OwnedWriteHalf>>,
     }
 
-    fn store(slots: &Rc<RefCell<Slots>>, c: u64, s: TcpStream) {
+    fn store(slots: &Rc<RefCell<Slots>>, c: u64, s: TcpStream, write_first: bool) {
         let (r, w) = s.into_split();
         let mut sl = slots.borrow_mut();
         sl.rd.insert(c, Rc::new(RefCell::new(Some(r))));
-        sl.wr.insert(c, Rc::new(RefCell::new(Some(w))));
+        if write_first {
+            sl.wr_first.insert(c, Rc::new(RefCell::new(Some(w))));
+        } else {
+            sl.wr.insert(c, Rc::new(RefCell::new(Some(w))));
+        }
     }
 
     fn res(h: usize, inc: u64, id: u64, r: &str, c: u64) {
@@ -825,7 +871,7 @@ mod c04 {
                                     // connections are identified by the connector's port: the connector
                                     // draws its ephemeral ports in connect order
                                     let c = (peer.port() - EPH0) as u64 + 1;
-                                    store(&slots, c, s);
+                                    store(&slots, c, s, (c + inc + h as u64) % 2 == 1);
                                     res(h, inc, id, "ok", c);
                                 }
                                 Err(e) => res(h, inc, id, io_class(&e), 0),
@@ -849,7 +895,7 @@ mod c04 {
                                 Ok(s) => {
                                     let port = s.local_addr().map(|a| a.port()).unwrap_or(0);
                                     let cc = (port.wrapping_sub(EPH0)) as u64 + 1;
-                                    store(&slots, c, s);
+                                    store(&slots, c, s, (c + inc + h as u64) % 2 == 1);
                                     res(h, inc, id, if cc == c { "ok" } else { "ok_port_mismatch" }, c);
                                 }
                                 Err(e) => res(h, inc, id, io_class(&e), c),
@@ -880,7 +926,10 @@ mod c04 {
                         });
                     }
                     "write" => {
-                        let cell = slots.borrow().wr.get(&c).cloned();
+                        let cell = {
+                            let sl = slots.borrow();
+                            sl.wr.get(&c).or_else(|| sl.wr_first.get(&c)).cloned()
+                        };
                         tokio::task::spawn_local(async move {
                             let _g = Guard::new(h);
                             let Some(cell) = cell else {
